@@ -544,9 +544,22 @@ def np_count_nonzero(a, axis=None, **kw):
     return _reduce_axis(a, axis, lambda acc, c: acc + ite(ufuncs._truth(c), 1, 0), lambda: 0, False, _np.intp)
 
 
-def np_cumsum(a, axis=None, dtype=None, **kw):
+def np_cumsum(a, axis=None, dtype=None, out=None, **kw):
     _reject_kw('cumsum', kw)
     a = _unlazy(a)
+    if out is not None:
+        # NumPy accumulates in the element type of `out` (no promotion to the platform integer) and returns `out`
+        out = _unlazy(out)
+        if not isinstance(out, _np.ndarray) or axis not in (None, 0) or _np.ndim(a) != 1 or dtype is not None:
+            raise Unsupported('cumsum(out=) beyond the 1-D form')
+        odt = out.ldtype if isinstance(out, SArr) else out.dtype
+        if _conc(a) and not isinstance(out, SArr):
+            return _np.cumsum(_np.asarray(a), out=out)
+        res = np_cumsum(_as_sarr(a), dtype=odt)
+        if tuple(res.shape) != tuple(out.shape):
+            raise ValueError('output parameter has wrong shape')
+        out[...] = res
+        return out
     if _conc(a):
         return _delegate('cumsum', a, axis=axis, dtype=dtype)
     a = _as_sarr(a)
@@ -813,6 +826,23 @@ def np_diag(v, k=0):
 def np_diagonal(a, offset=0, axis1=0, axis2=1):
     a = _as_sarr(a)
     return _mk(_np.diagonal(_raw(a), offset, axis1, axis2).copy(), a.ldtype)
+
+
+def np_einsum(subscripts, *operands, **kw):
+    """row / column / total sums written as einsum ('ij->i', 'ij->j', 'ij->').  Unlike ndarray.sum, einsum accumulates in the element
+    type of its operand (no widening of narrow integers): the sums carry a fit obligation"""
+    _reject_kw('einsum', kw)
+    if len(operands) != 1 or not isinstance(subscripts, str):
+        raise Unsupported('einsum beyond single-operand sums')
+    a = _unlazy(operands[0])
+    if _conc(a):
+        return wrap(_np.einsum(subscripts, _np.asarray(a)))
+    a = _as_sarr(a)
+    spec = subscripts.replace(' ', '')
+    axis = {'ij->i': 1, 'ij->j': 0, 'ij->': None}.get(spec, 'x')
+    if axis == 'x' or a.ndim != 2:
+        raise Unsupported('einsum(%r) is not modelled' % subscripts)
+    return np_sum(a, axis=axis, dtype=a.ldtype)
 
 
 def np_trace(a, **kw):
